@@ -23,7 +23,13 @@ import (
 
 var sigQuit = syscall.SIGQUIT
 
-const Root = "/verif"
+// Root is the directory of the verification machinery (run.sh exports VERIF_ROOT).
+var Root = func() string {
+	if r := os.Getenv("VERIF_ROOT"); r != "" {
+		return r
+	}
+	return "/verif"
+}()
 
 // Check describes one property check.
 type Check struct {
@@ -44,6 +50,9 @@ type Check struct {
 	Post func(p *Parent)
 	// WorkerTimeout is the watchdog for one worker process.
 	WorkerTimeout func(tier string) time.Duration
+	// RaceAlso: after the main pass, repeat the quick-sized workload under the
+	// -race build and treat race reports with a library frame as violations.
+	RaceAlso func(tier string) bool
 	// Env gives extra environment variables for the workers (dir = run directory).
 	Env func(dir string) []string
 }
@@ -73,18 +82,18 @@ type Violation struct {
 
 // Result is what one worker reports.
 type Result struct {
-	Shard        int              `json:"shard"`
-	Evaluations  int64            `json:"evaluations"`
-	Nontrivial   int64            `json:"nontrivial"`
-	Unspecified  int64            `json:"unspecified"`
-	Inconclusive int64            `json:"inconclusive"`
-	InconWhy     []string         `json:"inconclusive_why,omitempty"`
-	Counters     map[string]int64 `json:"counters"`
+	Shard        int                 `json:"shard"`
+	Evaluations  int64               `json:"evaluations"`
+	Nontrivial   int64               `json:"nontrivial"`
+	Unspecified  int64               `json:"unspecified"`
+	Inconclusive int64               `json:"inconclusive"`
+	InconWhy     []string            `json:"inconclusive_why,omitempty"`
+	Counters     map[string]int64    `json:"counters"`
 	Sets         map[string][]string `json:"sets,omitempty"`
-	Samples      []any            `json:"samples"`
-	Violations   []Violation      `json:"violations"`
-	Finished     bool             `json:"finished"`
-	LastCase     int64            `json:"last_case"`
+	Samples      []any               `json:"samples"`
+	Violations   []Violation         `json:"violations"`
+	Finished     bool                `json:"finished"`
+	LastCase     int64               `json:"last_case"`
 }
 
 // Ctx is the worker-side context of a check run.
@@ -98,12 +107,12 @@ type Ctx struct {
 	From   int64 // skip cases below
 	Dir    string
 
-	mu      sync.Mutex
-	res     Result
-	hashes  map[uint64]struct{}
-	sets    map[string]map[string]struct{}
-	journal *os.File
-	cur     int64
+	mu         sync.Mutex
+	res        Result
+	hashes     map[uint64]struct{}
+	sets       map[string]map[string]struct{}
+	journal    *os.File
+	cur        int64
 	maxSamples int
 }
 
@@ -350,16 +359,16 @@ func RunWorker(id, tier string, seed int64, shard, shards int, only, from int64,
 // ---------------------------------------------------------------- parent
 
 type Parent struct {
-	Check   *Check
-	Tier    string
-	Seed    int64
-	Dir     string
-	Exe     string
-	Merged  Result
-	Hashes  map[uint64]struct{}
-	Sets    map[string]map[string]struct{}
-	Extra   map[string]any // extra coverage keys
-	start   time.Time
+	Check  *Check
+	Tier   string
+	Seed   int64
+	Dir    string
+	Exe    string
+	Merged Result
+	Hashes map[uint64]struct{}
+	Sets   map[string]map[string]struct{}
+	Extra  map[string]any // extra coverage keys
+	start  time.Time
 }
 
 type KnownFinding struct {
@@ -544,97 +553,120 @@ func RunParent(id, tier string, seed int64, exe, raceExe string) int {
 
 	var mu sync.Mutex
 	var crashViol []Violation
-	var wg sync.WaitGroup
-	for s := 0; s < shards; s++ {
-		wg.Add(1)
-		go func(s int) {
-			defer wg.Done()
-			from := int64(0)
-			for attempt := 0; attempt < 6; attempt++ {
-				tag := fmt.Sprintf("%d", s)
-				if from > 0 {
-					tag = fmt.Sprintf("%d-from%d", s, from)
-				}
-				args := []string{"worker", id, "--tier", tier, "--seed", fmt.Sprint(seed),
-					"--shard", fmt.Sprintf("%d/%d", s, shards), "--from", fmt.Sprint(from), "--dir", p.Dir}
-				var env []string
-				if ck.Env != nil {
-					env = ck.Env(p.Dir)
-				}
-				exit, timedOut, stderrPath := p.spawn(args, "w"+tag, timeout, env)
-				resPath := filepath.Join(p.Dir, "result-"+tag+".json")
-				if exit == 0 {
-					if data, err := os.ReadFile(resPath); err == nil {
-						var r Result
-						if json.Unmarshal(data, &r) == nil && r.Finished {
-							mu.Lock()
-							p.merge(&r, filepath.Join(p.Dir, "hashes-"+tag))
-							mu.Unlock()
-							return
+	runPass := func(workerTier, prefix string, envf func(string) []string) {
+		var wg sync.WaitGroup
+		for s := 0; s < shards; s++ {
+			wg.Add(1)
+			go func(s int) {
+				defer wg.Done()
+				from := int64(0)
+				for attempt := 0; attempt < 6; attempt++ {
+					tag := fmt.Sprintf("%d", s)
+					if from > 0 {
+						tag = fmt.Sprintf("%d-from%d", s, from)
+					}
+					_ = prefix
+					args := []string{"worker", id, "--tier", workerTier, "--seed", fmt.Sprint(seed),
+						"--shard", fmt.Sprintf("%d/%d", s, shards), "--from", fmt.Sprint(from), "--dir", p.Dir}
+					var env []string
+					if envf != nil {
+						env = envf(p.Dir)
+					}
+					exit, timedOut, stderrPath := p.spawn(args, "w"+tag, timeout, env)
+					resPath := filepath.Join(p.Dir, "result-"+tag+".json")
+					if exit == 0 {
+						if data, err := os.ReadFile(resPath); err == nil {
+							var r Result
+							if json.Unmarshal(data, &r) == nil && r.Finished {
+								mu.Lock()
+								p.merge(&r, filepath.Join(p.Dir, "hashes-"+tag))
+								mu.Unlock()
+								return
+							}
 						}
 					}
-				}
-				// abnormal end
-				last, _ := lastJournalCase(filepath.Join(p.Dir, "journal-"+tag))
-				stderrTail := tail(stderrPath, 6000)
-				sig, isCrash := crashSig(head(stderrPath, 200000))
-				if exit == ExitDeadlock {
-					v := p.confirm(id, tier, seed, last, timeout)
-					mu.Lock()
-					if v != nil && v.Sig == "deadlock" {
-						crashViol = append(crashViol, *v)
-					} else {
-						crashViol = append(crashViol, Violation{Sig: "deadlock", Case: last,
-							What: "deadlock: every goroutine of the library blocked on a channel operation (identical stacks on two samples)",
-							Detail: map[string]any{"stderr_tail": stderrTail, "reproduced": v != nil}})
-					}
-					mu.Unlock()
-				} else if exit == ExitWatchdog {
-					v := p.confirm(id, tier, seed, last, timeout)
-					mu.Lock()
-					if v != nil {
-						crashViol = append(crashViol, *v)
-					} else {
-						p.Merged.Inconclusive++
-						p.Merged.InconWhy = append(p.Merged.InconWhy, fmt.Sprintf("case %d exceeded its wall-clock budget in worker %s but finished when run alone with a 10x budget", last, tag))
-					}
-					mu.Unlock()
-				} else if timedOut {
-					mu.Lock()
-					p.Merged.Inconclusive++
-					p.Merged.InconWhy = append(p.Merged.InconWhy, fmt.Sprintf("worker %s hit the wall-clock watchdog at case %d", tag, last))
-					mu.Unlock()
-					// confirm alone with a larger budget
-					v := p.confirm(id, tier, seed, last, timeout)
-					if v != nil {
+					// abnormal end
+					last, _ := lastJournalCase(filepath.Join(p.Dir, "journal-"+tag))
+					stderrTail := tail(stderrPath, 6000)
+					sig, isCrash := crashSig(head(stderrPath, 200000))
+					if exit == ExitDeadlock {
+						v := p.confirm(id, tier, seed, last, timeout)
 						mu.Lock()
-						crashViol = append(crashViol, *v)
+						if v != nil && v.Sig == "deadlock" {
+							crashViol = append(crashViol, *v)
+						} else {
+							crashViol = append(crashViol, Violation{Sig: "deadlock", Case: last,
+								What:   "deadlock: every goroutine of the library blocked on a channel operation (identical stacks on two samples)",
+								Detail: map[string]any{"stderr_tail": stderrTail, "reproduced": v != nil}})
+						}
+						mu.Unlock()
+					} else if exit == ExitWatchdog {
+						v := p.confirm(id, tier, seed, last, timeout)
+						mu.Lock()
+						if v != nil {
+							crashViol = append(crashViol, *v)
+						} else {
+							p.Merged.Inconclusive++
+							p.Merged.InconWhy = append(p.Merged.InconWhy, fmt.Sprintf("case %d exceeded its wall-clock budget in worker %s but finished when run alone with a 10x budget", last, tag))
+						}
+						mu.Unlock()
+					} else if timedOut {
+						mu.Lock()
+						p.Merged.Inconclusive++
+						p.Merged.InconWhy = append(p.Merged.InconWhy, fmt.Sprintf("worker %s hit the wall-clock watchdog at case %d", tag, last))
+						mu.Unlock()
+						// confirm alone with a larger budget
+						v := p.confirm(id, tier, seed, last, timeout)
+						if v != nil {
+							mu.Lock()
+							crashViol = append(crashViol, *v)
+							mu.Unlock()
+						}
+					} else if isCrash || exit != 0 {
+						v := p.confirm(id, tier, seed, last, timeout)
+						mu.Lock()
+						if v != nil {
+							crashViol = append(crashViol, *v)
+						} else if isCrash {
+							// not reproduced alone, but a panic is a panic: report with the dump
+							crashViol = append(crashViol, Violation{Sig: sig, Case: last,
+								What:   "worker process died (not reproduced when the case ran alone)",
+								Detail: map[string]any{"stderr_tail": stderrTail, "reproduced": false}})
+						} else {
+							p.Merged.Inconclusive++
+							p.Merged.InconWhy = append(p.Merged.InconWhy, fmt.Sprintf("worker %s exited %d without a crash dump at case %d: %s", tag, exit, last, Trunc(stderrTail, 300)))
+						}
 						mu.Unlock()
 					}
-				} else if isCrash || exit != 0 {
-					v := p.confirm(id, tier, seed, last, timeout)
-					mu.Lock()
-					if v != nil {
-						crashViol = append(crashViol, *v)
-					} else if isCrash {
-						// not reproduced alone, but a panic is a panic: report with the dump
-						crashViol = append(crashViol, Violation{Sig: sig, Case: last,
-							What: "worker process died (not reproduced when the case ran alone)",
-							Detail: map[string]any{"stderr_tail": stderrTail, "reproduced": false}})
-					} else {
-						p.Merged.Inconclusive++
-						p.Merged.InconWhy = append(p.Merged.InconWhy, fmt.Sprintf("worker %s exited %d without a crash dump at case %d: %s", tag, exit, last, Trunc(stderrTail, 300)))
+					if last < 0 {
+						return
 					}
-					mu.Unlock()
+					from = last + 1
 				}
-				if last < 0 {
-					return
-				}
-				from = last + 1
-			}
-		}(s)
+			}(s)
+		}
+		wg.Wait()
 	}
-	wg.Wait()
+	runPass(tier, "", ck.Env)
+	if ck.RaceAlso != nil && ck.RaceAlso(tier) {
+		// second pass: the quick-sized workload under the race detector build
+		plain := p.Exe
+		p.Exe = raceExe
+		for _, pat := range []string{"result-*.json", "hashes-*", "journal-*"} {
+			ms, _ := filepath.Glob(filepath.Join(p.Dir, pat))
+			for _, m := range ms {
+				os.Remove(m)
+			}
+		}
+		runPass("quick", "race", RaceEnv)
+		p.Exe = plain
+		vs, reports := raceViolations(p.Dir)
+		p.Extra["race_detector_pass"] = "quick-sized workload repeated under the -race build"
+		p.Extra["race_detector_reports"] = reports
+		mu.Lock()
+		crashViol = append(crashViol, vs...)
+		mu.Unlock()
+	}
 	for _, v := range crashViol {
 		p.Merged.Violations = append(p.Merged.Violations, v)
 	}
